@@ -1074,6 +1074,18 @@ func (env *SpecEnv) call(x *ast.CallExpr) tv {
 			}
 		}
 		sfail("keptold: no field %s", fid.Name)
+	case "keptoldarr": // keptoldarr(ElemType): every backing array of that element type that existed in the old state is unchanged
+		t := env.resolveType(x.Args[0])
+		if t == nil || env.old == nil {
+			sfail("keptoldarr(ElemType)")
+		}
+		cur, old := ex.arrComp(env.heap, t), ex.arrComp(env.old, t)
+		if cur.S == old.S {
+			return tv{T: tTrue, Ty: boolT}
+		}
+		ex.counter++
+		r := fmt.Sprintf("ka_%d", ex.counter)
+		return tv{T: Term{fmt.Sprintf("(forall ((%s Int)) (! (=> (<= %s %s) (= (select %s %s) (select %s %s))) :pattern ((select %s %s))))", r, r, env.oldAlloc.S, cur.S, r, old.S, r, cur.S, r), sBool}, Ty: boolT}
 	case "arrayof": // arrayof(s): the contents of the backing array of slice s
 		a := env.eval(x.Args[0])
 		st0, ok := a.Ty.Underlying().(*types.Slice)
